@@ -1,0 +1,269 @@
+//go:build verif
+
+// Contracts for package sflow, checked by /verif/govc (comment-only file; it declares nothing).
+// The byte stream behind io.Reader / io.ReadSeeker is the ghost object ghost.Stream{D, Pos}
+// (the worker passes a *bytes.Reader); binary.Read is an intrinsic of the verifier.
+// Layouts are written from the sFlow version 5 structure definitions (sflow.org/sflow_version_5.txt).
+package sflow
+
+//@ ifaceas io.ReadSeeker *ghost.Stream
+//@ ifaceas io.Reader *ghost.Stream
+//@ intrinsic read binread 0 1
+
+//@ globalinv errNoneEnterpriseStandard != nil && errDataLengthUnknown != nil && errSFVersionNotSupport != nil && errMaxOutEthernetLength != nil
+
+//@ pred strm(r *ghost.Stream) = r != nil && r.Pos >= 0
+
+// ---- flow sample ---------------------------------------------------------------------------------
+
+//@ func (*FlowSample).unmarshal
+//@   requires strm(r)
+//@   ensures strm(r) && r.D == old(r.D) && r.Pos >= old(r.Pos)
+//@   ensures old(r.Pos) + 32 <= len(r.D) ==> err == nil && r.Pos == old(r.Pos) + 32 && fs.SequenceNo == be32(r.D, old(r.Pos)) && fs.SourceID == be8(r.D, old(r.Pos)+4)
+//@       && fs.SamplingRate == be32(r.D, old(r.Pos)+8) && fs.SamplePool == be32(r.D, old(r.Pos)+12) && fs.Drops == be32(r.D, old(r.Pos)+16)
+//@       && fs.Input == be32(r.D, old(r.Pos)+20) && fs.Output == be32(r.D, old(r.Pos)+24) && fs.RecordsNo == be32(r.D, old(r.Pos)+28)
+//@   ensures old(r.Pos) + 32 > len(r.D) ==> err != nil
+//@   ensures fs.Records == old(fs.Records)
+//@   modifies fs, r.Pos
+
+// XDR opaque: the header octets are padded to a multiple of four
+//@ spec xdrPad(n mathint) mathint = (4 - n % 4) % 4
+
+//@ func (*SampledHeader).unmarshal
+//@   requires strm(r)
+//@   ensures strm(r) && r.D == old(r.D) && r.Pos >= old(r.Pos)
+//@   ensures old(r.Pos) + 16 > len(r.D) ==> err != nil
+//@   ensures old(r.Pos) + 16 <= len(r.D) && be32(r.D, old(r.Pos)+12) > 1500 ==> err != nil
+//@   ensures [hdr] old(r.Pos) + 16 <= len(r.D) && be32(r.D, old(r.Pos)+12) <= 1500 && old(r.Pos) + 16 + be32(r.D, old(r.Pos)+12) + xdrPad(be32(r.D, old(r.Pos)+12)) <= len(r.D)
+//@         && be32(r.D, old(r.Pos)+12) + xdrPad(be32(r.D, old(r.Pos)+12)) > 0 ==>
+//@       err == nil && sh.Protocol == be32(r.D, old(r.Pos)) && sh.FrameLength == be32(r.D, old(r.Pos)+4) && sh.Stripped == be32(r.D, old(r.Pos)+8) && sh.HeaderLength == be32(r.D, old(r.Pos)+12)
+//@       && eqbytes(sh.Header, mkbytes(r.D, r.D.off + old(r.Pos) + 16, sh.HeaderLength)) && r.Pos == old(r.Pos) + 16 + sh.HeaderLength + xdrPad(sh.HeaderLength)
+//@   ensures err == nil ==> len(sh.Header) <= 1500 && len(sh.Header) == sh.HeaderLength
+//@   modifies sh, r.Pos
+
+//@ func (*ExtSwitchData).unmarshal
+//@   requires strm(r)
+//@   ensures strm(r) && r.D == old(r.D) && r.Pos >= old(r.Pos)
+//@   ensures [words] old(r.Pos) + 16 <= len(r.D) ==> err == nil && r.Pos == old(r.Pos) + 16 && es.SrcVlan == be32(r.D, old(r.Pos)) && es.SrcPriority == be32(r.D, old(r.Pos)+4)
+//@       && es.DstVlan == be32(r.D, old(r.Pos)+8) && es.DstPriority == be32(r.D, old(r.Pos)+12)
+//@   ensures old(r.Pos) + 16 > len(r.D) ==> err != nil
+//@   modifies es, r.Pos
+
+// extended router: address type (1 = IPv4, 2 = IPv6), address, source and destination mask lengths;
+// l is the declared record length (16 or 28)
+//@ func (*ExtRouterData).unmarshal
+//@   requires strm(r)
+//@   ensures strm(r) && r.D == old(r.D) && r.Pos >= old(r.Pos)
+//@   ensures [wf] (l == 16 || l == 28) && old(r.Pos) + l <= len(r.D) ==> err == nil && r.Pos == old(r.Pos) + l
+//@       && eqbytes(er.NextHop, mkbytes(r.D, r.D.off + old(r.Pos) + 4, l - 12)) && er.SrcMask == be32(r.D, old(r.Pos) + l - 8) && er.DstMask == be32(r.D, old(r.Pos) + l - 4)
+//@   modifies er, r.Pos
+
+//@ func decodeSampledHeader
+//@   requires strm(r)
+//@   ensures strm(r) && r.D == old(r.D) && r.Pos >= old(r.Pos)
+//@   ensures err == nil ==> result != nil
+//@   modifies r.Pos
+
+//@ func decodeExtSwitchData
+//@   requires strm(r)
+//@   ensures strm(r) && r.D == old(r.D) && r.Pos >= old(r.Pos)
+//@   ensures old(r.Pos) + 16 <= len(r.D) ==> err == nil && result != nil && r.Pos == old(r.Pos) + 16 && result.SrcVlan == be32(r.D, old(r.Pos)) && result.SrcPriority == be32(r.D, old(r.Pos)+4)
+//@       && result.DstVlan == be32(r.D, old(r.Pos)+8) && result.DstPriority == be32(r.D, old(r.Pos)+12)
+//@   ensures old(r.Pos) + 16 > len(r.D) ==> err != nil && result == nil
+//@   modifies r.Pos
+
+//@ func decodeExtRouterData
+//@   requires strm(r)
+//@   ensures strm(r) && r.D == old(r.D) && r.Pos >= old(r.Pos)
+//@   ensures (l == 16 || l == 28) && old(r.Pos) + l <= len(r.D) ==> err == nil && result != nil && r.Pos == old(r.Pos) + l
+//@       && eqbytes(result.NextHop, mkbytes(r.D, r.D.off + old(r.Pos) + 4, l - 12)) && result.SrcMask == be32(r.D, old(r.Pos) + l - 8) && result.DstMask == be32(r.D, old(r.Pos) + l - 4)
+//@   ensures err == nil ==> result != nil
+//@   modifies r.Pos
+
+// every record costs at least its 8-octet header, so the work is bounded by the octets present
+//@ func decodeFlowSample
+//@   requires strm(r)
+//@   ensures strm(r) && r.D == old(r.D) && r.Pos >= old(r.Pos)
+//@   ensures err == nil ==> result != nil && r.Pos >= old(r.Pos) + 32
+//@   modifies r.Pos
+//@   loop 1
+//@     invariant strm(r) && r.D == old(r.D) && fs != nil && !fs.Records.isnil && r.Pos >= old(r.Pos) + 32 + 8*i
+//@     invariant 0 <= i && i <= fs.RecordsNo
+//@     decreases fs.RecordsNo - i
+
+// ---- counter sample ------------------------------------------------------------------------------
+
+//@ func (*CounterSample).unmarshal
+//@   requires strm(r)
+//@   ensures strm(r) && r.D == old(r.D) && r.Pos >= old(r.Pos)
+//@   ensures old(r.Pos) + 12 <= len(r.D) ==> err == nil && r.Pos == old(r.Pos) + 12 && cs.SequenceNo == be32(r.D, old(r.Pos)) && cs.SourceIDType == be8(r.D, old(r.Pos)+4)
+//@       && cs.SourceIDIdx == be8(r.D, old(r.Pos)+5)*65536 + be8(r.D, old(r.Pos)+6)*256 + be8(r.D, old(r.Pos)+7) && cs.RecordsNo == be32(r.D, old(r.Pos)+8)
+//@   ensures old(r.Pos) + 12 > len(r.D) ==> err != nil
+//@   ensures cs.Records == old(cs.Records)
+//@   modifies cs, r.Pos
+
+//@ func decodeFlowCounter
+//@   requires strm(r)
+//@   ensures strm(r) && r.D == old(r.D) && r.Pos >= old(r.Pos)
+//@   ensures err == nil ==> result != nil && r.Pos >= old(r.Pos) + 12
+//@   modifies r.Pos
+//@   loop 1
+//@     invariant strm(r) && r.D == old(r.D) && cs != nil && !cs.Records.isnil && r.Pos >= old(r.Pos) + 12 + 8*i
+//@     invariant 0 <= i && i <= cs.RecordsNo
+//@     decreases cs.RecordsNo - i
+
+// sFlow v5 counter record, 88 octets
+//@ pred genAt(c GenericInterfaceCounters, b []byte, p mathint) = c.Index == be32(b, p) && c.Type == be32(b, p+4) && c.Speed == be64(b, p+8) &&
+//@     c.Direction == be32(b, p+16) && c.Status == be32(b, p+20) && c.InOctets == be64(b, p+24) && c.InUnicastPackets == be32(b, p+32) &&
+//@     c.InMulticastPackets == be32(b, p+36) && c.InBroadcastPackets == be32(b, p+40) && c.InDiscards == be32(b, p+44) &&
+//@     c.InErrors == be32(b, p+48) && c.InUnknownProtocols == be32(b, p+52) && c.OutOctets == be64(b, p+56) &&
+//@     c.OutUnicastPackets == be32(b, p+64) && c.OutMulticastPackets == be32(b, p+68) && c.OutBroadcastPackets == be32(b, p+72) &&
+//@     c.OutDiscards == be32(b, p+76) && c.OutErrors == be32(b, p+80) && c.PromiscuousMode == be32(b, p+84)
+//@ func (*GenericInterfaceCounters).unmarshal
+//@   requires strm(r)
+//@   ensures strm(r) && r.D == old(r.D) && r.Pos >= old(r.Pos)
+//@   ensures old(r.Pos) + 88 <= len(r.D) ==> err == nil && r.Pos == old(r.Pos) + 88 && genAt(gic, r.D, old(r.Pos))
+//@   ensures old(r.Pos) + 88 > len(r.D) ==> err != nil
+//@   modifies gic, r.Pos
+//@ func decodeGenericIntCounters
+//@   requires strm(r)
+//@   ensures strm(r) && r.D == old(r.D) && r.Pos >= old(r.Pos)
+//@   ensures old(r.Pos) + 88 <= len(r.D) ==> err == nil && result != nil && r.Pos == old(r.Pos) + 88 && genAt(result, r.D, old(r.Pos))
+//@   ensures old(r.Pos) + 88 > len(r.D) ==> err != nil && result == nil
+//@   modifies r.Pos
+
+// sFlow v5 counter record, 52 octets
+//@ pred ethAt(c EthernetInterfaceCounters, b []byte, p mathint) = c.AlignmentErrors == be32(b, p) && c.FCSErrors == be32(b, p+4) &&
+//@     c.SingleCollisionFrames == be32(b, p+8) && c.MultipleCollisionFrames == be32(b, p+12) && c.SQETestErrors == be32(b, p+16) &&
+//@     c.DeferredTransmissions == be32(b, p+20) && c.LateCollisions == be32(b, p+24) && c.ExcessiveCollisions == be32(b, p+28) &&
+//@     c.InternalMACTransmitErrors == be32(b, p+32) && c.CarrierSenseErrors == be32(b, p+36) && c.FrameTooLongs == be32(b, p+40) &&
+//@     c.InternalMACReceiveErrors == be32(b, p+44) && c.SymbolErrors == be32(b, p+48)
+//@ func (*EthernetInterfaceCounters).unmarshal
+//@   requires strm(r)
+//@   ensures strm(r) && r.D == old(r.D) && r.Pos >= old(r.Pos)
+//@   ensures old(r.Pos) + 52 <= len(r.D) ==> err == nil && r.Pos == old(r.Pos) + 52 && ethAt(eic, r.D, old(r.Pos))
+//@   ensures old(r.Pos) + 52 > len(r.D) ==> err != nil
+//@   modifies eic, r.Pos
+//@ func decodeEthIntCounters
+//@   requires strm(r)
+//@   ensures strm(r) && r.D == old(r.D) && r.Pos >= old(r.Pos)
+//@   ensures old(r.Pos) + 52 <= len(r.D) ==> err == nil && result != nil && r.Pos == old(r.Pos) + 52 && ethAt(result, r.D, old(r.Pos))
+//@   ensures old(r.Pos) + 52 > len(r.D) ==> err != nil && result == nil
+//@   modifies r.Pos
+
+// sFlow v5 counter record, 72 octets
+//@ pred trAt(c TokenRingCounters, b []byte, p mathint) = c.LineErrors == be32(b, p) && c.BurstErrors == be32(b, p+4) &&
+//@     c.ACErrors == be32(b, p+8) && c.AbortTransErrors == be32(b, p+12) && c.InternalErrors == be32(b, p+16) &&
+//@     c.LostFrameErrors == be32(b, p+20) && c.ReceiveCongestions == be32(b, p+24) && c.FrameCopiedErrors == be32(b, p+28) &&
+//@     c.TokenErrors == be32(b, p+32) && c.SoftErrors == be32(b, p+36) && c.HardErrors == be32(b, p+40) && c.SignalLoss == be32(b, p+44) &&
+//@     c.TransmitBeacons == be32(b, p+48) && c.Recoverys == be32(b, p+52) && c.LobeWires == be32(b, p+56) && c.Removes == be32(b, p+60) &&
+//@     c.Singles == be32(b, p+64) && c.FreqErrors == be32(b, p+68)
+//@ func (*TokenRingCounters).unmarshal
+//@   requires strm(r)
+//@   ensures strm(r) && r.D == old(r.D) && r.Pos >= old(r.Pos)
+//@   ensures old(r.Pos) + 72 <= len(r.D) ==> err == nil && r.Pos == old(r.Pos) + 72 && trAt(tr, r.D, old(r.Pos))
+//@   ensures old(r.Pos) + 72 > len(r.D) ==> err != nil
+//@   modifies tr, r.Pos
+//@ func decodeTokenRingCounters
+//@   requires strm(r)
+//@   ensures strm(r) && r.D == old(r.D) && r.Pos >= old(r.Pos)
+//@   ensures old(r.Pos) + 72 <= len(r.D) ==> err == nil && result != nil && r.Pos == old(r.Pos) + 72 && trAt(result, r.D, old(r.Pos))
+//@   ensures old(r.Pos) + 72 > len(r.D) ==> err != nil && result == nil
+//@   modifies r.Pos
+
+// sFlow v5 counter record, 80 octets
+//@ pred vgAt(c VGCounters, b []byte, p mathint) = c.InHighPriorityFrames == be32(b, p) && c.InHighPriorityOctets == be64(b, p+4) &&
+//@     c.InNormPriorityFrames == be32(b, p+12) && c.InNormPriorityOctets == be64(b, p+16) && c.InIPMErrors == be32(b, p+24) &&
+//@     c.InOversizeFrameErrors == be32(b, p+28) && c.InDataErrors == be32(b, p+32) && c.InNullAddressedFrames == be32(b, p+36) &&
+//@     c.OutHighPriorityFrames == be32(b, p+40) && c.OutHighPriorityOctets == be64(b, p+44) && c.TransitionIntoTrainings == be32(b, p+52) &&
+//@     c.HCInHighPriorityOctets == be64(b, p+56) && c.HCInNormPriorityOctets == be64(b, p+64) && c.HCOutHighPriorityOctets == be64(b, p+72)
+//@ func (*VGCounters).unmarshal
+//@   requires strm(r)
+//@   ensures strm(r) && r.D == old(r.D) && r.Pos >= old(r.Pos)
+//@   ensures old(r.Pos) + 80 <= len(r.D) ==> err == nil && r.Pos == old(r.Pos) + 80 && vgAt(vg, r.D, old(r.Pos))
+//@   ensures old(r.Pos) + 80 > len(r.D) ==> err != nil
+//@   modifies vg, r.Pos
+//@ func decodeVGCounters
+//@   requires strm(r)
+//@   ensures strm(r) && r.D == old(r.D) && r.Pos >= old(r.Pos)
+//@   ensures old(r.Pos) + 80 <= len(r.D) ==> err == nil && result != nil && r.Pos == old(r.Pos) + 80 && vgAt(result, r.D, old(r.Pos))
+//@   ensures old(r.Pos) + 80 > len(r.D) ==> err != nil && result == nil
+//@   modifies r.Pos
+
+// sFlow v5 counter record, 28 octets
+//@ pred vlanAt(c VlanCounters, b []byte, p mathint) = c.ID == be32(b, p) && c.Octets == be64(b, p+4) && c.UnicastPackets == be32(b, p+12) &&
+//@     c.MulticastPackets == be32(b, p+16) && c.BroadcastPackets == be32(b, p+20) && c.Discards == be32(b, p+24)
+//@ func (*VlanCounters).unmarshal
+//@   requires strm(r)
+//@   ensures strm(r) && r.D == old(r.D) && r.Pos >= old(r.Pos)
+//@   ensures old(r.Pos) + 28 <= len(r.D) ==> err == nil && r.Pos == old(r.Pos) + 28 && vlanAt(vc, r.D, old(r.Pos))
+//@   ensures old(r.Pos) + 28 > len(r.D) ==> err != nil
+//@   modifies vc, r.Pos
+//@ func decodeVlanCounters
+//@   requires strm(r)
+//@   ensures strm(r) && r.D == old(r.D) && r.Pos >= old(r.Pos)
+//@   ensures old(r.Pos) + 28 <= len(r.D) ==> err == nil && result != nil && r.Pos == old(r.Pos) + 28 && vlanAt(result, r.D, old(r.Pos))
+//@   ensures old(r.Pos) + 28 > len(r.D) ==> err != nil && result == nil
+//@   modifies r.Pos
+
+// sFlow v5 counter record, 28 octets
+//@ pred procAt(c ProcessorCounters, b []byte, p mathint) = c.CPU5s == be32(b, p) && c.CPU1m == be32(b, p+4) && c.CPU5m == be32(b, p+8) &&
+//@     c.TotalMemory == be64(b, p+12) && c.FreeMemory == be64(b, p+20)
+//@ func (*ProcessorCounters).unmarshal
+//@   requires strm(r)
+//@   ensures strm(r) && r.D == old(r.D) && r.Pos >= old(r.Pos)
+//@   ensures old(r.Pos) + 28 <= len(r.D) ==> err == nil && r.Pos == old(r.Pos) + 28 && procAt(pc, r.D, old(r.Pos))
+//@   ensures old(r.Pos) + 28 > len(r.D) ==> err != nil
+//@   modifies pc, r.Pos
+//@ func decodedProcessorCounters
+//@   requires strm(r)
+//@   ensures strm(r) && r.D == old(r.D) && r.Pos >= old(r.Pos)
+//@   ensures old(r.Pos) + 28 <= len(r.D) ==> err == nil && result != nil && r.Pos == old(r.Pos) + 28 && procAt(result, r.D, old(r.Pos))
+//@   ensures old(r.Pos) + 28 > len(r.D) ==> err != nil && result == nil
+//@   modifies r.Pos
+// ---- datagram ------------------------------------------------------------------------------------
+
+//@ func NewSFDecoder
+//@   ensures result.reader == r && result.filter == f
+
+//@ func (*SFDecoder).sfHeaderDecode
+//@   requires strm(d.reader)
+//@   ensures strm(d.reader) && d.reader.D == old(d.reader.D) && d.reader.Pos >= old(d.reader.Pos) && d.filter == old(d.filter)
+//@   ensures err == nil ==> result != nil && result.Version == 5 && result.Version == be32(d.reader.D, old(d.reader.Pos)) && result.IPVersion == be32(d.reader.D, old(d.reader.Pos)+4)
+//@   ensures err == nil && result.IPVersion != 2 ==> len(result.IPAddress) == 4 && d.reader.Pos == old(d.reader.Pos) + 28
+//@       && eqbytes(result.IPAddress, mkbytes(d.reader.D, d.reader.D.off + old(d.reader.Pos) + 8, 4))
+//@       && result.AgentSubID == be32(d.reader.D, old(d.reader.Pos)+12) && result.SequenceNo == be32(d.reader.D, old(d.reader.Pos)+16)
+//@       && result.SysUpTime == be32(d.reader.D, old(d.reader.Pos)+20) && result.SamplesNo == be32(d.reader.D, old(d.reader.Pos)+24)
+//@   ensures err == nil && result.IPVersion == 2 ==> len(result.IPAddress) == 16 && d.reader.Pos == old(d.reader.Pos) + 40
+//@       && eqbytes(result.IPAddress, mkbytes(d.reader.D, d.reader.D.off + old(d.reader.Pos) + 8, 16))
+//@       && result.AgentSubID == be32(d.reader.D, old(d.reader.Pos)+24) && result.SequenceNo == be32(d.reader.D, old(d.reader.Pos)+28)
+//@       && result.SysUpTime == be32(d.reader.D, old(d.reader.Pos)+32) && result.SamplesNo == be32(d.reader.D, old(d.reader.Pos)+36)
+//@   ensures err == nil ==> d.reader.Pos <= len(d.reader.D)
+//@   modifies d.reader.Pos
+
+// data format word: enterprise (20 bits) and format (12 bits); a sample of an enterprise-specific or
+// unknown type is skipped by its declared length
+//@ func (*SFDecoder).getSampleInfo
+//@   requires strm(d.reader)
+//@   ensures strm(d.reader) && d.reader.D == old(d.reader.D) && d.reader.Pos >= old(d.reader.Pos) && d.filter == old(d.filter)
+//@   ensures [info] old(d.reader.Pos) + 8 <= len(d.reader.D) ==> err == nil && d.reader.Pos == old(d.reader.Pos) + 8
+//@       && result == be32(d.reader.D, old(d.reader.Pos)) && result1 == be32(d.reader.D, old(d.reader.Pos)+4)
+//@   ensures old(d.reader.Pos) + 8 > len(d.reader.D) ==> err != nil
+//@   ensures err == nil ==> d.reader.Pos == old(d.reader.Pos) + 8 && d.reader.Pos <= len(d.reader.D)
+//@   modifies d.reader.Pos
+
+//@ func (*SFDecoder).isFilterMatch
+//@   ensures result <==> (exists k :: 0 <= k && k < len(d.filter) && d.filter[k] == f)
+//@   loop 1
+//@     invariant forall k :: 0 <= k && k < range_i ==> d.filter[k] != f
+
+//@ func (*SFDecoder).SFDecode
+//@   requires strm(d.reader) && d.reader.Pos == 0
+//@   ensures strm(d.reader) && d.reader.D == old(d.reader.D)
+//@   ensures [bounded] result != nil ==> 8*(len(result.Samples) + len(result.Counters)) <= len(d.reader.D)
+//@   modifies d.reader.Pos
+//@   loop 1
+//@     invariant strm(d.reader) && d.reader.D == old(d.reader.D) && d.filter == old(d.filter) && datagram != nil
+//@     invariant 0 <= i && i <= datagram.SamplesNo && len(datagram.Samples) + len(datagram.Counters) <= i
+//@     invariant d.reader.Pos >= 8*i && 8*(len(datagram.Samples) + len(datagram.Counters)) <= len(d.reader.D)
+//@     decreases datagram.SamplesNo - i
